@@ -274,6 +274,17 @@ SCENARIO(past_due) {
   w.shutdown();
 }
 
+// three equal due times: ties first-in first-out needs at least three items to be visible in the
+// sorted-list walk (the walk compares with the SUCCESSOR of the current node)
+SCENARIO(three_equal) {
+  World w;
+  w.start_at(0, w.base + 1 * UNIT);
+  w.start_at(1, w.base + 1 * UNIT);
+  w.start_at(2, w.base + 1 * UNIT);
+  w.wait_done();
+  w.shutdown();
+}
+
 // ---- sequential differential scenario -----------------------------------------------------------
 // C07_SEQ = sequences separated by '/', each a list of ops separated by ';':
 //   i <id> <due>   start a schedule_at operation due at base + due half-units (due even, may be < 0)
